@@ -10,6 +10,7 @@ RN.1 every call of parol::utils::generate_name gets as `exclusions` an iterator 
      loop (no stale exclusions).
 RN.2 a name that is synthesised with one of the suffix literals "Opt" "List" "Group" "Suffix" flows into the
      `preferred_name` argument of generate_name and nowhere else.
+RN.4 the suffix literals are never used to recognise names (see rn4; C09 R09.4, C10 R10.5; expected count 0).
 RN.3 (C33) who_may_write(Scope.names): only Scope::add_name / Scope::new; every add_name argument at symbol-creating
      call sites comes from make_unique_name (inventory with floor).
 """
@@ -362,3 +363,35 @@ def rn0(ctx, facts, rule):
                       "non-terminals that clash with user names)" % (short(path), b.local_name(X) or "_%s" % X, why),
                       where(b, b.line_of_block(r)))
     ctx.require_floor(rule, "generate_name_return_paths", n, 3)
+
+
+def rn4(ctx, facts, rule, modules):
+    """RN.4 (added after seed C10-b; expected count 0) helper non-terminals are never *recognised* by their name: the suffix
+    literals "Opt" "List" "Group" "Suffix" occur in the transformations only where a preferred name is assembled (RN.2), never as
+    the pattern of ends_with / starts_with / contains / strip_suffix / trim_end_matches / find / a regex.  A user may name a
+    non-terminal `CallSuffix` or `ItemList`; a transformation that treats such a name as 'generated, already handled' skips
+    work that the property demands (e.g. left factoring of `CallSuffix`)."""
+    RECOGNISERS = {"ends_with", "starts_with", "contains", "strip_suffix", "strip_prefix", "trim_end_matches", "trim_start_matches",
+                   "find", "rfind", "matches", "is_match", "eq", "ne", "split", "rsplit"}
+    hits = []
+    nb = 0
+    for b in facts.in_crate(PA):
+        root = b.root_fn(facts)
+        if not any(root.module == m or root.module.startswith(m + "::") for m in modules):
+            continue
+        nb += 1
+        for c in b.calls():
+            nm = (c.path or "").split("::")[-1]
+            if nm not in RECOGNISERS:
+                continue
+            for a in c.args:
+                t = operand_term(b, a)
+                if t[0] == "const" and isinstance(t[2], str) and t[2] in SUFFIXES:
+                    hits.append((b, c, t[2]))
+    for b, c, suf in hits:
+        ctx.bad(rule, "%s|recognises-%s-names" % (fn_key(b, facts), suf),
+                "%s tests a non-terminal name against the literal \"%s\" (%s): names are not reserved - a user-defined non-terminal "
+                "with such a name is taken for a generated helper" % (short(b.path), suf, short(c.path or "?")), where(b, c.line))
+    ctx.check(not hits, rule, "no-name-based-recognition-of-helpers", "no helper-suffix literal is used as a name pattern in %d bodies" % nb,
+              "%d use(s) of a helper-suffix literal as a name pattern" % len(hits), nontrivial=False)
+    ctx.require_floor(rule, "bodies_scanned", nb, 10)
